@@ -20,6 +20,7 @@ import (
 	"bytes"
 	"crypto"
 	"crypto/x509"
+	"slices"
 
 	"github.com/dadrus/heimdall/internal/heimdall"
 	"github.com/dadrus/heimdall/internal/x/errorchain"
@@ -47,7 +48,10 @@ func buildChain(chain []*x509.Certificate, issuerCandidates []*x509.Certificate)
 	child := chain[len(chain)-1]
 
 	for _, candidate := range issuerCandidates {
-		if child.Equal(candidate) {
+		// a certificate is never its own issuer candidate, and a certificate which is already part of the
+		// chain (renewed self-signed certificate with the same subject, cross certification) must not be
+		// visited again, otherwise the recursion never ends
+		if child.Equal(candidate) || slices.ContainsFunc(chain, candidate.Equal) {
 			continue
 		} else if isIssuerOf(child, candidate) {
 			return buildChain(append(chain, candidate), issuerCandidates)
